@@ -62,6 +62,10 @@ func (p *c12Prop) Gen(r *Rng, i int, tier string) interface{} {
 	case 8:
 		return &c12Case{Kind: "oversize", Size: 100*1024*1024 + r.Intn(100*1024*1024), Max: 1024 * (1 + r.Intn(64)), V5: r.Bool()}
 	case 9:
+		if i%20 == 19 {
+			// Pkts[0] / Pkts[1]: protocol version of the publisher / of the subscriber (4, 5); Pkts[2]: subscription identifier?
+			return &c12Case{Kind: "wellformed", Pkts: []int{4 + r.Intn(2), 4 + r.Intn(2), r.Intn(2)}}
+		}
 		return &c12Case{Kind: "outbound", Max: 40 + r.Intn(200), Seed: int(r.U64() % 1000000)}
 	}
 	c := &c12Case{Kind: "seg", V5: r.Bool()}
@@ -116,6 +120,7 @@ func (p *c12Prop) Run(ci interface{}) interface{} {
 	if c.Kind == "oversize" || (c.Kind == "seg" && c.Max > 0) {
 		opts.MaxPacketSize = uint32(c.Max)
 	}
+	opts.SubsID = true
 	b, err := NewBroker(opts)
 	if err != nil {
 		obs.Err = err.Error()
@@ -322,6 +327,79 @@ func (p *c12Prop) Run(ci interface{}) interface{} {
 		}
 		runtime.ReadMemStats(&m1)
 		obs.Allocated = int(m1.TotalAlloc - m0.TotalAlloc)
+	case "wellformed":
+		pv, sv := mqttp.ProtocolVersion(c.Pkts[0]), mqttp.ProtocolVersion(c.Pkts[1])
+		pc := b.Dial()
+		will := mqttp.NewPublish(pv)
+		_ = will.Set("wf/will", []byte("gone!"), 1, false, false)
+		if _, err := pc.Connect(ConnectOpts{ID: "wfp", Ver: pv, Clean: true, Will: will}); err != nil {
+			obs.Err = err.Error()
+			return obs
+		}
+		pa := pc.Auto(false)
+		_ = pa.SendL(mkPublish(pv, "wf/ret", []byte("hello"), 1, true, 1))
+		if !pa.WaitFor(5*time.Second, func() bool {
+			for _, o := range pa.Others { // (the condition runs under the client's lock: no CountOthers here)
+				if o.Type() == mqttp.PUBACK {
+					return true
+				}
+			}
+			return false
+		}) {
+			obs.Err = "retained publish not acknowledged"
+			return obs
+		}
+		time.Sleep(30 * time.Millisecond) // the retainer goroutine stores it
+		sc := b.Dial()
+		if _, err := sc.Connect(ConnectOpts{ID: "wfs", Ver: sv, Clean: true}); err != nil {
+			obs.Err = err.Error()
+			return obs
+		}
+		sp := mkSubscribe(sv, 1, []string{"wf/#"}, []byte{1})
+		if sv == mqttp.ProtocolV50 && c.Pkts[2] == 1 {
+			_ = sp.PropertySet(mqttp.PropertySubscriptionIdentifier, uint32(5))
+		}
+		_ = sc.Send(sp)
+		want := map[string]string{"wf/ret": "hello", "wf/live": "live!", "wf/will": "gone!"}
+		got := map[string]bool{}
+		obs.Alive, obs.Small = true, true // Alive: every packet decoded; Small: topics and payloads exact
+		sentLive, dropped := false, false
+		deadline := time.Now().Add(6 * time.Second)
+		for len(got) < 3 && time.Now().Before(deadline) {
+			pk, err := sc.Recv(500 * time.Millisecond)
+			if err == errTimeout {
+				continue
+			}
+			if err != nil {
+				obs.Alive = false
+				obs.Err = "subscriber: " + err.Error()
+				break
+			}
+			switch m := pk.(type) {
+			case *mqttp.SubAck:
+				if !sentLive {
+					sentLive = true
+					_ = pa.SendL(mkPublish(pv, "wf/live", []byte("live!"), 1, false, 2))
+				}
+			case *mqttp.Publish:
+				if want[m.Topic()] != string(m.Payload()) {
+					obs.Small = false
+					obs.Err = fmt.Sprintf("topic %q payload %q", m.Topic(), m.Payload())
+				}
+				got[m.Topic()] = true
+				if id, _ := m.ID(); m.QoS() > 0 {
+					_ = sc.Send(mkAck(sv, mqttp.PUBACK, uint16(id)))
+				}
+				if got["wf/live"] && !dropped {
+					dropped = true
+					pa.Close() // abnormal end: the Will
+				}
+			}
+		}
+		if len(got) < 3 && obs.Err == "" {
+			obs.Small = false
+			obs.Err = fmt.Sprintf("only %d of 3 messages arrived", len(got))
+		}
 	case "outbound":
 		r := NewRng(uint64(c.Seed))
 		sc := b.Dial()
@@ -467,6 +545,8 @@ func (p *c12Prop) Coq(ci interface{}, oi interface{}) string {
 		return fmt.Sprintf("(CHostile %s %s)", cBool(o.Bystander), cBool(o.Alive))
 	case "oversize":
 		return fmt.Sprintf("(COversize %d%%N %d%%N %d%%N %s)", c.Size, c.Max, o.Allocated, cBool(o.Closed))
+	case "wellformed":
+		return fmt.Sprintf("(CWellFormed %s %s)", cBool(o.Alive), cBool(o.Small))
 	default:
 		return fmt.Sprintf("(COutbound %d %d %s)", c.Max, o.Largest, cBool(o.Small && o.Err == ""))
 	}
